@@ -466,7 +466,32 @@ def r16_10(chk):
     chk.floor("R16.10", 1, "_InitFrom.__call__")
 
 
+def r16_11(chk):
+    chk.rule("R16.11", "_ParamProjection.update_param_rules projects EVERY exchangeability rule of the nested model onto the richer model's parameter names: the only rules handed on unchanged are those the two models share by name (mprobs, length) -- the pass-through test looks at the rule's par_name alone, against a literal tuple within {mprobs, length}; a rule exempted for another reason (is_constant, a scope) keeps the nested model's name, matches nothing in a richer model with other names (HKY85 kappa -> GTR) and is silently dropped, so the richer model no longer starts at the nested likelihood")
+    m = chk.repo.module("evolve/likelihood_function.py")
+    q = "_ParamProjection.update_param_rules"
+    fn = m.func(q)
+    loops = [lp for lp in walk_no_nested(fn) if isinstance(lp, ast.For) and isinstance(lp.target, ast.Name)]
+    if not loops:
+        raise AnalysisError(f"{q}: loop over the rules not found")
+    lp = loops[-1]
+    r = lp.target.id
+    names = {st.targets[0].id for st in lp.body if isinstance(st, ast.Assign) and isinstance(st.targets[0], ast.Name) and norm(st.value) in (f"{r}['par_name']", f"{r}.get('par_name')")}
+    passes = [i for i in lp.body if isinstance(i, ast.If) and any(isinstance(x, ast.Continue) for x in i.body) and any(isinstance(c, ast.Call) and isinstance(c.func, ast.Attribute) and c.func.attr == "append" and c.args and norm(c.args[0]) == r for st in i.body for c in ast.walk(st))]
+    k = key(m, q, "only shared-name rules pass unprojected")
+    if not passes:
+        chk.ok("R16.11", k, m.loc(lp), "no rule is handed on unprojected", nontrivial=False)
+        chk.floor("R16.11", 0, "")
+        return
+    for i in passes:
+        t = i.test
+        good = isinstance(t, ast.Compare) and len(t.ops) == 1 and isinstance(t.ops[0], ast.In) and (norm(t.left) in names or norm(t.left) in (f"{r}['par_name']",)) and isinstance(t.comparators[0], (ast.Tuple, ast.List, ast.Set)) and all(isinstance(e, ast.Constant) and e.value in ("mprobs", "length") for e in t.comparators[0].elts)
+        chk.decide(good, "R16.11", k, m.loc(i), f"pass-through under `{norm(t)}`", f"rules are handed on unprojected under `{norm(t)}`: a rule that is not mprobs / length keeps the nested model's parameter name; where the richer model names its parameters differently the rule applies to nothing and the nested value (e.g. a constant kappa) is lost")
+    chk.floor("R16.11", 1, "update_param_rules")
+
+
 def run(chk):
+    r16_11(chk)
     r16_10(chk)
     r16_9(chk)
     r16_8(chk)
